@@ -159,7 +159,9 @@ theorem castTo_flt_form (R : Rounding) (hR : RoundingOK R) (cr r : Rep) (F : Fmt
     rw [hcast]
     cases hq : R F (v : Rat) with
     | none => left; rfl
-    | some q => right; exact ⟨q, rfl, hR.idem F _ q hq⟩
+    | some q =>
+      have hprec : 1 ≤ F.prec := by cases cr <;> simp [Rep.fmt?] at hF <;> subst hF <;> decide
+      right; exact ⟨q, rfl, hR.idem F _ q hprec hq⟩
   | f q =>
     obtain ⟨Fr, hFr, hq⟩ := hx
     right
